@@ -10,6 +10,8 @@ pub(crate) mod c25;
 pub(crate) mod c26;
 pub(crate) mod c31;
 pub(crate) mod conformance;
+pub(crate) mod lab;
+pub(crate) mod refdb;
 pub(crate) mod world;
 
 pub(crate) fn main() {
